@@ -132,3 +132,11 @@ pub fn c12_variant_lookup_by_name() {
     assert!(f0.is_some() == (which < 2), "C12: lookup in a closed variant ignores pending changes");
     assert!(p.b.get_variant_datum_definition_by_name(RecordVariantId::from(1), name).is_none());
 }
+
+// `./check --replay` writes Kani's counterexample (a unit test) into this file and runs it natively
+// with `cargo kani playback`; it is empty otherwise.
+#[cfg(test)]
+mod playback_generated {
+    use super::*;
+    include!(concat!(env!("VERIF_KANI_DIR"), "/playback_generic_builder.rs"));
+}
